@@ -104,6 +104,19 @@ def run(project: Project, rep, tier: str):
             rep.discharged("HT-DTYPE", fi_hs, fi_hs.node, f"{entry_.rsplit('.', 1)[1]}: {st_.get('casts', 0)} cast(s) in "
                                                           f"{st_.get('functions', 0)} function(s), none narrows the diagrams' "
                                                           f"coordinates to single precision", nontrivial=False)
+    from .common import numerics_positive_examples
+    rep.extra["positive_examples"] = numerics_positive_examples()
+    from . import scatter_rule
+    hits, st_ = scatter_rule.analyse(project, mod + ".")
+    for h in hits:
+        rep.refuted("HT-MULT", h["fi"], h["node"],
+                    h["why"] + ": a point that occurs several times in a diagram counts once, so the value is not "
+                               "sqrt(k(F,F)+k(G,G)-2k(F,G)) of the diagrams given (heat([p,p],[p]) becomes 0)",
+                    construct=f"{h['fi'].qualname}: {_ast.unparse(h['node'])[:100]}")
+    if not hits:
+        rep.discharged("HT-MULT", fi_hs, fi_hs.node, f"{st_['functions']} function(s): no contribution is added through a grouping "
+                                                     f"index without accumulating ({st_['accumulating_sites']} accumulating site(s))",
+                       nontrivial=False)
     # ---- kernel
     fi_k, I_k, r_k = _run(project, KER, ("F", "G"))
     rep.analysed(fi_k)
